@@ -188,6 +188,34 @@ def coq_build(cfg, log):
     return res
 
 
+def gen_deps(cfg):
+    """Generated files (Gen/*.v) in the dependency closure of the property's Coq targets, read from the
+    dependency file coq_makefile maintains.  None = unknown (be conservative: every generator counts)."""
+    dfile = os.path.join(COQ, ".Makefile.d")
+    if not os.path.exists(dfile):
+        return None
+    deps = {}
+    for line in open(dfile):
+        if ":" not in line:
+            continue
+        lhs, rhs = line.split(":", 1)
+        srcs = [x for x in rhs.split() if x.endswith(".vo")]
+        for t in lhs.split():
+            if t.endswith(".vo"):
+                deps.setdefault(t, set()).update(srcs)
+    todo = list(cfg.get("run_targets", [])) + list(cfg["prop_targets"])
+    seen = set()
+    while todo:
+        t = todo.pop()
+        if t in seen:
+            continue
+        seen.add(t)
+        todo.extend(deps.get(t, ()))
+    if not any(t in deps for t in cfg["prop_targets"]):
+        return None
+    return {os.path.basename(t)[:-1] for t in seen if t.startswith("Gen/")}
+
+
 def first_error(out):
     m = re.search(r"(File [^\n]+\n)?Error:?[^\n]*\n?[^\n]*", out)
     return (m.group(0) if m else out[-300:]).replace("\n", " ").strip()[:400]
@@ -255,7 +283,15 @@ def run_cases(cfg, seed, ncases, tier, tag, log, only=None, release=False):
 
     fails, classes, errors = [], {}, []
     with concurrent.futures.ThreadPoolExecutor(16) as ex:
-        for f, (rc, o) in ex.map(one, shards):
+        results = list(ex.map(one, shards))
+    # a shard that timed out (loaded machine) is evaluated again, alone, with a much longer limit:
+    # a slow machine must not turn into an alarm
+    for i, (f, (rc, o)) in enumerate(results):
+        if rc == 124:
+            results[i] = (f, sh(["coqc", "-Q", COQ, "Coupe", "-noglob", f], cwd=out_dir,
+                                timeout=4 * cfg.get("coqc_timeout", 900)))
+    if True:
+        for f, (rc, o) in results:
             k = int(re.findall(r"\d+", f)[0])
             rep = parse_report(o) if rc == 0 else None
             if rep is None:
@@ -348,14 +384,21 @@ def main():
     rc, out = sh([sys.executable, os.path.join(ROOT, "tools", "translate.py"), "--repo", REPO])
     log.write("== translate\n" + out + "\n")
     translator = [l for l in out.strip().split("\n") if l]
-    for l in translator:
-        if " error" in l:
-            broken.append("translator: " + l)
+    translator_errors = [l for l in translator if " error" in l]
     regenerated = [l.split()[0] for l in translator if l.endswith("changed") and not l.endswith("unchanged")]
 
     # 3. Coq
     cb = coq_build(cfg, log)
     broken += cb["broken"]
+    # a translator failure breaks the obligations of the properties whose theorems depend on that generated
+    # file (and only those: other properties are not about that code)
+    mine = gen_deps(cfg)
+    for l in translator_errors:
+        if mine is None or l.split()[0] in mine:
+            broken.append("translator: " + l)
+        else:
+            notes.append("translator error in a generated file this property does not depend on: " + l)
+    translator = [l for l in translator if mine is None or l.split()[0] in mine]
     if tier == "thorough" and cb["ok_props"] and cfg.get("coqchk", True):
         mods = ["Coupe." + t[:-3].replace("/", ".") for t in cfg["prop_targets"]]
         rc, out = sh(["coqchk", "-silent", "-o", "-Q", COQ, "Coupe"] + mods, cwd=COQ, timeout=3000)
